@@ -82,6 +82,9 @@ structure Query where
   wr : Bool
   valid : Option Val
   cb : CharCb
+  /-- the characteristic's type is in ALWAYS_NULL (an event type such as ProgrammableSwitchEvent):
+      `client_update_value` ends with `self.value = None` -/
+  nulls : Bool := false
 deriving Repr
 
 structure Behav where
@@ -111,13 +114,22 @@ structure CharSt where
   vals : CharId → Val
   log : List Ev
 
+/-- rendering of Python `None` as a characteristic value -/
+def NULLV : Val := "null"
+
+/-- the value the characteristic holds when `client_update_value` is over: the normalised value, or
+    `None` for an ALWAYS_NULL type whose callback did not raise (`if self._always_null: self.value = None`
+    is the last statement; an exception from the callback skips it) -/
+def kept (q : Query) (n : Val) : Val := if q.nulls && q.cb != CharCb.raises then NULLV else n
+
 /-- `Characteristic.client_update_value(value, client_addr)`; second component `none` = raised.
-    (`notify` is C12's; ALWAYS_NULL characteristics are out of scope.) -/
+    (`notify` is C12's.) -/
 def clientUpdate (q : Query) (st : CharSt) : CharSt × Option (Option Val) :=
   match q.valid with
   | none => (st, none)                       -- to_valid_value / valid_value_or_raise raised
   | some n =>
-    let st1 : CharSt := { st with vals := fun c => if c = q.id then n else st.vals c }  -- self.value = value
+    -- self.value = value ... (callback) ... if self._always_null: self.value = None
+    let st1 : CharSt := { st with vals := fun c => if c = q.id then kept q n else st.vals c }
     match q.cb with
     | .absent => (st1, some none)
     | .returns r => ({ st1 with log := st1.log ++ [Ev.char q.id n] }, some r)
